@@ -119,7 +119,7 @@ def check_property(pid, tier, seed, procs, relock=False):
     lock = load_lock().get(pid, {})
 
     lines, violations, undecided, known_hits = [], [], [], []
-    n_obl = n_dis = n_prop = n_prop_dis = 0
+    n_obl = n_dis = n_prop = n_prop_dis = n_scen = n_scen_dis = 0
     functions, samples, solver_time = [], [], 0.0
     backends = {}
     seen_prop_obls = set()
@@ -138,18 +138,26 @@ def check_property(pid, tier, seed, procs, relock=False):
             if r["status"] == "error":
                 fn["traceback"] = r.get("traceback")
         functions.append(fn)
+        scen = bool(r.get("scenario"))      # a unit that runs the extracted function on CONCRETE scenarios: its clauses are bounded checks, counted as such
+        fn["concrete_scenarios_only"] = scen
         for o in r.get("obligations", []):
-            n_obl += 1
             solver_time += o.get("time_s", 0)
-            backends[o["backend"].split(" ")[0]] = backends.get(o["backend"].split(" ")[0], 0) + 1
             isprop = bool(o.get("prop")) and pid in str(o["prop"]).split(",")      # a clause may belong to several properties ("C10,C03")
             if isprop:
-                n_prop += 1
                 seen_prop_obls.add(o["name"].split("~")[0])
-            if o["status"] == "discharged":
-                n_dis += 1
+            if scen:
+                n_scen += 1
+                n_scen_dis += int(o["status"] == "discharged")
+            else:
+                n_obl += 1
+                backends[o["backend"].split(" ")[0]] = backends.get(o["backend"].split(" ")[0], 0) + 1
                 if isprop:
-                    n_prop_dis += 1
+                    n_prop += 1
+            if o["status"] == "discharged":
+                if not scen:
+                    n_dis += 1
+                    if isprop:
+                        n_prop_dis += 1
                 if len(samples) < 6 and isprop:
                     samples.append(dict(obligation=o["name"], status="discharged", backend=o["backend"], time_s=o["time_s"]))
                 continue
@@ -186,6 +194,7 @@ def check_property(pid, tier, seed, procs, relock=False):
     bounded_summ = []
     seen_fp = set()
     evaluations = nontrivial = 0
+    evaluations += n_scen           # clauses of concrete-scenario units are bounded evaluations, not discharged obligations
     exhaustive_all = True
     for r in bres:
         if r.get("status") == "crash":
@@ -246,6 +255,7 @@ def check_property(pid, tier, seed, procs, relock=False):
     explanation = getattr(mod, "EXPLANATION", "")
     cov = dict(
         obligations=n_obl, discharged=n_dis, property_obligations=n_prop, property_obligations_discharged=n_prop_dis,
+        concrete_scenario_clauses=n_scen, concrete_scenario_clauses_passed=n_scen_dis,
         checker_cmd="./check %s --tier %s  (PyVC path executor over the real functions of /repo; z3 %s in-process, /usr/bin/cvc5 on unknown%s)" % (
             pid, tier, __import__("z3").get_version_string(), "; every obligation re-run on cvc5 1.0.3 and z3 4.8.12" if tier == "thorough" else ""),
         trusted_base=list(getattr(mod, "TRUSTED", [])) + ["CPython 3.12 (executes the extracted function)", "PyVC engine (/verif/pyvc: proxies, loop cutter, stubs)",
